@@ -216,6 +216,35 @@ fn check_meta(rep: &mut EncReport) {
     }
 }
 
+// a meta declaration naming a non-ASCII-compatible encoding (either syntax) must be ignored: no switch, no sink notification
+fn check_meta_refused(rep: &mut EncReport) {
+    for label in ["utf-16", "utf-16be", "utf-16le", "iso-2022-jp", "replacement", "hz-gb-2312", "no-such-label"] {
+        for form in [format!("<meta charset={label}>"), format!("<meta http-equiv=\"Content-Type\" content=\"text/html; charset={label}\">"), format!("<meta content=\"text/html;charset={label}\" http-equiv=content-type>")] {
+            let doc = format!("{form}<p>h\u{e9}llo</p>");
+            let ev = Rc::new(RefCell::new(vec![]));
+            let texts = Rc::new(RefCell::new(String::new()));
+            let t2 = texts.clone();
+            let settings = Settings::new().with_adjust_charset_on_meta_tag(true)
+                .append_element_content_handler(text!("p", move |t| { t2.borrow_mut().push_str(t.as_str()); Ok(()) }));
+            let ok = { let mut rw = HtmlRewriter::new(settings, RecSink { ev: ev.clone() }); rw.write(doc.as_bytes()).is_ok() && rw.end().is_ok() };
+            rep.cases += 1;
+            let n_enc = ev.borrow().iter().filter(|e| e.0 == "enc").count();
+            if !ok || n_enc != 1 || *texts.borrow() != "h\u{e9}llo" {
+                rep.fail("a meta declaration of a non-ASCII-compatible (or unknown) encoding was not ignored", UTF_8, doc.as_bytes(), None, format!("set_encoding calls: {n_enc}, text read: {:?}", texts.borrow()));
+            }
+        }
+    }
+    // the ASCII-compatible label works in the http-equiv form too
+    let doc = b"<meta http-equiv=\"Content-Type\" content=\"text/html; charset=windows-1251\"><p>\xC6</p>";
+    let ev = Rc::new(RefCell::new(vec![]));
+    let texts = Rc::new(RefCell::new(String::new()));
+    let t2 = texts.clone();
+    let settings = Settings::new().with_adjust_charset_on_meta_tag(true).append_element_content_handler(text!("p", move |t| { t2.borrow_mut().push_str(t.as_str()); Ok(()) }));
+    { let mut rw = HtmlRewriter::new(settings, RecSink { ev: ev.clone() }); let _ = rw.write(doc); let _ = rw.end(); }
+    rep.cases += 1;
+    if *texts.borrow() != "\u{416}" { rep.fail("http-equiv charset declaration not applied", UTF_8, doc, None, format!("text {:?}", texts.borrow())); }
+}
+
 pub fn run_c13(max_len: usize) -> EncReport {
     let mut rep = EncReport { cases: 0, violations: vec![], encodings: 0 };
     for enc in ALL {
@@ -244,6 +273,7 @@ pub fn run_c13(max_len: usize) -> EncReport {
         check_streaming(enc, &mut rep);
     }
     check_meta(&mut rep);
+    check_meta_refused(&mut rep);
     rep
 }
 
